@@ -47,25 +47,27 @@ def run(ctx):
         ctx.add_tlc(res, "M:" + cfg)
     rejected = {}
     for q in ("KeyedStores", "AliasKeySize", "MergeLE", "PtrKeyLE", "BottomLE", "EmptyMapShortcut"):
-        res = tlc.run("Mapper", "MapperMC_kf_%s.cfg" % q, expect_violation=True, tag="c09kf", timeout=3000)
+        res = tlc.run("Mapper", "MapperMC_kf_%s.cfg" % q, expect_violation=True, tag="c09kf", timeout=3000, workers=2)
         if not res.violation or "Correct" not in res.violation:
             raise tlc.MachineryError("model: quirk %s alone does not violate Correct (the finding is not a finding?)" % q)
         rejected[q] = [l for l in res.out.splitlines() if l.strip().startswith('<< "')][:1]
     ctx.note("quirks_rejected_by_model", sorted(rejected))
     for cfg in ("MapperMC_dev.cfg", "MapperMC_dev2.cfg"):
-        res = tlc.run("Mapper", cfg, expect_violation=True, tag="c09dev", timeout=3000)
+        res = tlc.run("Mapper", cfg, expect_violation=True, tag="c09dev", timeout=3000, workers=2)
         if not res.violation or "Correct" not in res.violation:
             raise tlc.MachineryError("self-test: seeded fault of %s did not violate Correct (invariant vacuous?)" % cfg)
     ctx.note("selftest_faults_detected_by_model", ["FaultModsReversed", "FaultAliasLastOnly"])
     # --- G + T ----------------------------------------------------------------------------------
     if quick:
-        tr = c09run.generate(ctx, "MapperGen_small.cfg", "small", stride=331)
-        tr += c09run.generate(ctx, "MapperSim.cfg", "sim", simulate="num=160", depth=7)
+        tr = c09run.generate(ctx, "MapperGen_tiny.cfg", "tiny", limit=120)
+        tr += c09run.generate(ctx, "MapperGen_small.cfg", "small", simulate="num=40", depth=4, limit=160)
+        tr += c09run.generate(ctx, "MapperSim.cfg", "sim", simulate="num=40", depth=7, limit=160)
         tr += c09run.drive(ctx, 160)
     else:
-        tr = c09run.generate(ctx, "MapperGen_small.cfg", "small", stride=23)
-        tr += c09run.generate(ctx, "MapperGen_small4.cfg", "small4", stride=97)
-        tr += c09run.generate(ctx, "MapperSim.cfg", "sim", simulate="num=3000", depth=7)
+        tr = c09run.generate(ctx, "MapperGen_tiny.cfg", "tiny")          # every behaviour of the tiny model
+        tr += c09run.generate(ctx, "MapperGen_small.cfg", "small", limit=4000)
+        tr += c09run.generate(ctx, "MapperGen_small4.cfg", "small4", limit=2000)
+        tr += c09run.generate(ctx, "MapperSim.cfg", "sim", simulate="num=400", depth=7, limit=3000)
         tr += c09run.drive(ctx, 3000)
     c09run.validate(ctx, tr, "all")
     ctx.exhaustive = False
